@@ -134,6 +134,12 @@ fn check<C: Cm>(case: &Case) -> PResult {
                     Err(e) => fail!(format!("rejects_valid/{n}"), "{name} rejected valid input {:?}: {e:?}", String::from_utf8_lossy(&bytes)),
                 };
                 check_content(&sy, s, codes, &format!("parsed/{n}")).map_err(|f| Fail { site: f.site, msg: format!("{name} on {:?}: {}", String::from_utf8_lossy(&bytes), f.msg) })?;
+                if codes.len() <= 300 {
+                    for (i, c) in codes.iter().enumerate() {
+                        let a = no_panic(&format!("parsed/{n}/nth_panic"), "nth", || s.nth(i))?;
+                        ensure_eq!(a.to_bits(), *c, format!("parsed/{n}/nth"), "{name}: nth({i})");
+                    }
+                }
             }
             let s = results[0].1.as_ref().unwrap();
             // display forms agree
